@@ -14,6 +14,17 @@ goes to the one (cold) store.  Reads run on thread pools (`rayon`): the theorems
   `to_do == Repack` over all index files; then for every such pack (same loop filter) the `BlobCopier` reads each
   coalesced chunk of the retained blobs: `read_partial(Pack, pack.id, blob_type.is_cacheable(), ..)` — `chunks` = their
   number (0 when `retain` kept nothing).
+  On a PLAN (`prunePlanCmd`, on the `decide_repack` model of `Model/Prune.lean`): `decide_repack` sets `to_do = Repack` in TWO
+  places — its first loop (candidates with reason PartlyUsed / ToCompress that pass the limits) and its second loop (the
+  `resize_packs`: SizeMismatch candidates, switched to Repack when their blob type is repacked anyway or enough of them
+  accumulated); `repack_packs()` walks over all packs of all index files AFTERWARDS, so both kinds are in the request
+  (`firstLoopRepackIds` = what a list recorded by the first loop alone would hold — the seeded shape C16-6).
+* where a request goes (`Be`, `repoBe`, `warmUpRepo`): `Repository::new_with_progress` keeps `be_cold` = the bare cold backend,
+  wraps THE COLD BACKEND in `WarmUpAccessBackend` if `opts.warm_up` and puts `HotColdBackend::new(that, be_hot)` on top;
+  `warm_up(repo, tpe, ids)` = `if repo.be.needs_warm_up() { repo.be.warm_up(tpe, id) for every id }` (no warm-up command);
+  `WarmUpAccessBackend::warm_up` = `self.be.read_partial(tpe, id, false, 0, 1)` (result ignored), `HotColdBackend::warm_up` =
+  `self.be.warm_up` (the cold side).  `open_only_cold` (keys, config) and `repair hotcold` (every file type) then read the
+  files from `be_cold` directly.
 * repair index (`commands/repair/index.rs`): `warm_up_wait(pack_read_header ids)`, then `PackHeader::from_file` per
   pack: `read_partial(Pack, id, false, ..)` once, and once more when the size hint was too small (`reads` ∈ {1, 2}).
   `pack_read_header = checker.into_pack_to_read()` (`packReadHeader`, on the `PackChecker` model of `Model/Index.lean`:
@@ -29,6 +40,8 @@ goes to the one (cold) store.  Reads run on thread pools (`rayon`): the theorems
 -/
 import Rustic.Model.RestoreWalk
 import Rustic.Model.Index
+import Rustic.Model.Prune
+import Rustic.Model.HotCold
 namespace Rustic.WarmUp
 
 /-- what the stores see -/
@@ -123,10 +136,40 @@ def checkReadDataCmd (packs : List Nat) : Cmd :=
 def repairHotcoldCmd (missingHot : List Nat) : Cmd :=
   { warm := missingHot, reads := missingHot.map Call.coldDirect }
 
+/-! #### prune on a plan: `decide_repack` (both loops), then `repack_packs()` -/
+
+/-- `PrunePlan::repack_packs()`: the ids of all packs with `to_do == Repack`, collected AFTER `decide_repack` -/
+def repackPacks (ps : List Rustic.Prune.PPack) : List Nat :=
+  (ps.filter (fun p => p.todo = Rustic.Prune.ToDo.repack)).map (·.id)
+
+/-- prune as `prune_repository` runs it on what `decide_packs` left (`ps`; repack candidates carry `cand`): `decide_repack`,
+`warm_up_wait(repack_packs())`, then the `BlobCopier` reads of every pack with `to_do == Repack` (`chunks p` ranged reads with
+`cacheable = blob_type.is_cacheable()`) -/
+def prunePlanCmd (k : Rustic.Prune.Consts) (o : Rustic.Prune.Opts) (ps : List Rustic.Prune.PPack)
+    (chunks : Rustic.Prune.PPack → Nat) : Cmd :=
+  { warm := repackPacks (Rustic.Prune.decideRepack k o ps)
+    reads := ((Rustic.Prune.decideRepack k o ps).filter (fun p => p.todo = Rustic.Prune.ToDo.repack)).flatMap
+      (fun p => List.replicate (chunks p) (Call.partialRead p.id (Rustic.Prune.isCacheable p.blobType))) }
+
+/-- the first loop of `decide_repack` alone (the `let`s of `Prune.repackDecisions`) -/
+def firstLoop (o : Rustic.Prune.Opts) (ps : List Rustic.Prune.PPack) :
+    List (Nat × Rustic.Repo.BlobType × Rustic.Prune.Inter) × Rustic.Prune.RState :=
+  let usedSize := Rustic.Prune.sumBy (·.info.usedSize) ps
+  let unusedSize := Rustic.Prune.sumBy (·.info.unusedSize) ps
+  let removeSize := Rustic.Prune.sumBy (fun p => if p.todo = .markDelete then p.info.unusedSize else 0) ps
+  let maxUnused := Rustic.Prune.limitUnused (o.repackUncompressed || o.repackAll) usedSize o.maxUnused
+  let maxRepack := Rustic.Prune.limitRepack (usedSize + unusedSize) o.maxRepack
+  Rustic.Prune.loop1 o maxRepack maxUnused (unusedSize - removeSize) {} (Rustic.Prune.sortCands (ps.filter (fun p => p.cand.isSome)))
+
+/-- ids of the packs the FIRST loop set to Repack — a list recorded there and not in the second loop (seeded shape C16-6) -/
+def firstLoopRepackIds (o : Rustic.Prune.Opts) (ps : List Rustic.Prune.PPack) : List Nat :=
+  (ps.filter (fun p => (firstLoop o ps).1.any (fun x => x.1 == p.pos && x.2.2 == Rustic.Prune.Inter.repack))).map (·.id)
+
 /-- the commands of the property's warm-up clause -/
 inductive Command where
   | restore (hole limit : Nat) (r : Rustic.RestoreWalk.RInfo)
   | prune (indexFiles : List (List PPack))
+  | prunePlan (k : Rustic.Prune.Consts) (o : Rustic.Prune.Opts) (ps : List Rustic.Prune.PPack) (chunks : Rustic.Prune.PPack → Nat)
   | repairIndex (toRead : List (Nat × Nat))
   | repairIndexOn (store : List (Nat × Nat)) (files : List Rustic.Index.IndexFile) (readAll : Bool)
       (nreads : Nat × Option Nat × Nat → Nat)
@@ -136,9 +179,63 @@ inductive Command where
 def cmdOf : Command → Cmd
   | .restore hole limit r => restoreCmd hole limit r
   | .prune idx => pruneCmd idx
+  | .prunePlan k o ps chunks => prunePlanCmd k o ps chunks
   | .repairIndex t => repairIndexCmd t
   | .repairIndexOn store files readAll nreads => repairIndexCmd (repairIndexRun store files readAll nreads)
   | .checkReadData ps => checkReadDataCmd ps
   | .repairHotcold m => repairHotcoldCmd m
+
+/-! #### where a warm-up request goes: the backend stack of `Repository::new_with_progress` -/
+
+inductive Store where
+  | hot | cold
+  deriving DecidableEq, Repr
+
+/-- what a store sees of file `(t, id)`: a read (served or refused), or its own `warm_up()` -/
+inductive SEv where
+  | read (s : Store) (t : Rustic.Backends.FileType) (id : Nat)
+  | warmReq (s : Store) (t : Rustic.Backends.FileType) (id : Nat)
+  deriving DecidableEq, Repr
+
+/-- a backend as `Repository::new_with_progress` stacks them; `cold n`: the store given as repository backend, `n` = its own
+`needs_warm_up()` -/
+inductive Be where
+  | cold (needsWarmUp : Bool)
+  | hot
+  | warmAccess (be : Be)
+  | hotCold (be hot : Be)
+  deriving Repr
+
+def Be.readPartial : Be → Rustic.Backends.FileType → Nat → Bool → List SEv
+  | .cold _, t, id, _ => [.read .cold t id]
+  | .hot, t, id, _ => [.read .hot t id]
+  | .warmAccess b, t, id, cb => b.readPartial t id cb
+  | .hotCold b h, t, id, cb => if Rustic.HotCold.usesHot t cb then h.readPartial t id cb else b.readPartial t id cb
+
+def Be.needsWarmUp : Be → Bool
+  | .cold n => n
+  | .hot => false
+  | .warmAccess _ => true
+  | .hotCold b _ => b.needsWarmUp
+
+def Be.warmUp : Be → Rustic.Backends.FileType → Nat → List SEv
+  | .cold _, t, id => [.warmReq .cold t id]
+  | .hot, t, id => [.warmReq .hot t id]
+  | .warmAccess b, t, id => b.readPartial t id false
+  | .hotCold b _, t, id => b.warmUp t id
+
+/-- `repo.be` (`repo.be_cold` is the bare `Be.cold n`): `opts.warm_up` wraps the COLD backend, the hot/cold layer comes on top -/
+def repoBe (n warmUpOpt hasHot : Bool) : Be :=
+  let be := if warmUpOpt then Be.warmAccess (.cold n) else .cold n
+  if hasHot then .hotCold be .hot else be
+
+/-- `warm_up(repo, tpe, ids)` without a warm-up command -/
+def warmUpRepo (be : Be) (t : Rustic.Backends.FileType) (ids : List Nat) : List SEv :=
+  if be.needsWarmUp then ids.flatMap (be.warmUp t) else []
+
+/-- `warm_up_wait(tpe, ids)`, then `be_cold.read_full(tpe, id)` of some of them: `open_only_cold` (keys; the config file) and
+`correct_missing_files` of `repair hotcold` (every file type) -/
+def coldDirectCmd (be : Be) (t : Rustic.Backends.FileType) (ids reads : List Nat) : List SEv :=
+  warmUpRepo be t ids ++ reads.map (fun id => SEv.read .cold t id)
 
 end Rustic.WarmUp
